@@ -153,6 +153,23 @@ func registerThreads(ex *Explorer) {
 		delete(rs.held[rs.tid], a[0].(*Cell))
 		return nil
 	}
+	// sync.Once: the function runs on the first Do of this Once value, never again in this process
+	// (the flag lives with the Once cell: a new process / a fresh struct starts with it unset)
+	I["(*sync.Once).Do"] = func(in *Interp, fn *ssa.Function, a []Value) Value {
+		c := a[0].(*Cell)
+		if c == nil {
+			panic(goPanic{msg: "runtime error: invalid memory address or nil pointer dereference"})
+		}
+		if in.onceDone == nil {
+			in.onceDone = map[*Cell]bool{}
+		}
+		if in.onceDone[c] {
+			return nil
+		}
+		in.onceDone[c] = true
+		in.callValue(a[1], nil)
+		return nil
+	}
 	I["(*sync.Mutex).Lock"] = lock
 	I["(*sync.Mutex).Unlock"] = unlock
 	I["(*sync.RWMutex).Lock"] = lock
